@@ -106,7 +106,7 @@ def run(ctx):
                 "and ~20% DELETEs carrying If-Match (current / stale / foreign / bogus / *) and If-None-Match:*, plus the general "
                 "history generator of C01; non-trivial = at least one conditional request refused and one carried out")
     ctx.assumptions += ["SHA-256 ETags modelled as injective in the serialised text", "listing order of a directory is a function of its entries"]
-    ctx.prove()
+    ctx.prove(extra_targets=x_hcheck.EXTRA)
     state = {}
     texts = {}       # etag -> set of stored texts seen with it ; text -> etag
 
